@@ -128,6 +128,8 @@ func (c *ATConn) BeginTx(ctx context.Context, opts driver.TxOptions) (driver.Tx,
 
 	tx, err := c.Conn.BeginTx(ctx, opts)
 	if err != nil {
+		// no local transaction was opened: the connection is still in autocommit mode
+		c.autoCommit = true
 		return nil, err
 	}
 
